@@ -430,8 +430,16 @@ func cmdCheck(args []string) int {
 		return 2
 	}
 	deadList := []string{}
+	// functions with a red (non-cover) obligation: a failed assertion is assumed afterwards, which may make the rest of
+	// the function unreachable - that is a consequence of the violation, not a vacuous contract
+	redFns := map[string]bool{}
+	for _, o := range obls {
+		if !o.Cover && o.Status != "proved" && o.Status != "skipped" && o.Status != "" {
+			redFns[o.Fn] = true
+		}
+	}
 	for fn, d := range deadReturns {
-		if len(d) == retCovers[fn] {
+		if len(d) == retCovers[fn] && !redFns[fn] {
 			// no return point of the function is reachable under its contract: the proof is vacuous
 			vacuous = append(vacuous, d...)
 		} else {
